@@ -45,8 +45,13 @@ def sid_to_sid(sid: str | Sid) -> Sid:
 
     # resolving
     if string.count(":"):  # a uri
+        uri = string
         _type, string = string.split(":", 1)
         _type, fields = sid_resolver.sid_to_dict(string, _type)
+        if not _type:
+            # not a valid uri: the untyped Sid keeps the input verbatim
+            # (without its prefix "x:project:hamlet" would equal, and share the caches of, the typed "project:hamlet")
+            string = uri
     else:  # a simple string
         _type, fields = sid_resolver.sid_to_dict(string)  # The string might be empty
 
